@@ -11,16 +11,16 @@ import (
 // chainRoles resolves the functions of chain.Manager by what they do rather
 // than by how they are spelled.
 type chainRoles struct {
-	p                                      *ir.Prog
-	storeApply, storeRevert, storeFlush    *types.Func // chain.Store interface methods
-	storeAddBlock, storeAddState           *types.Func
-	storeBlock, storeState, storePrune     *types.Func
-	applyTip, revertTip, reorgTo           *ir.Func
-	validateBlock, validateOrphan          *types.Func
-	applyBlockFn, revertBlockFn            *types.Func // consensus.ApplyBlock / RevertBlock
+	p                                            *ir.Prog
+	storeApply, storeRevert, storeFlush          *types.Func // chain.Store interface methods
+	storeAddBlock, storeAddState                 *types.Func
+	storeBlock, storeState, storePrune           *types.Func
+	applyTip, revertTip, reorgTo                 *ir.Func
+	validateBlock, validateOrphan                *types.Func
+	applyBlockFn, revertBlockFn                  *types.Func // consensus.ApplyBlock / RevertBlock
 	tipState, store, txpool, onReorg, onPool, mu *types.Var
-	methods                                []*ir.Func
-	vs                                     *ir.ViewSet // chain's functions with helpers expanded, role functions kept as calls
+	methods                                      []*ir.Func
+	vs                                           *ir.ViewSet // chain's functions with helpers expanded, role functions kept as calls
 }
 
 func getChainRoles(p *ir.Prog) *chainRoles {
@@ -108,4 +108,6 @@ func (r *chainRoles) heavierEdges(f *ir.Func) (edges []*cfgx.Edge, subjects []ty
 }
 
 // isIndexOf reports whether e is `obj.Index`.
-func isIndexOf(f *ir.Func, e ast.Expr, obj types.Object) bool { return isFieldOfObj(f, e, obj, "Index") }
+func isIndexOf(f *ir.Func, e ast.Expr, obj types.Object) bool {
+	return isFieldOfObj(f, e, obj, "Index")
+}
